@@ -49,14 +49,14 @@ CHECKS = {
              'The compiled generators are unavailable (C20).',
         design='6 C08'),
     'C17': dict(
-        technique='Coq proof (list induction) about a hand-written executable model of header-driven CSV event parsing and of the binary moment-tensor record codec; vm_compute correspondence against parse_csv on generated files and against the bytes written by _convert_mt_space_to_struct / read by read_binary_output',
+        technique='Coq proof (list induction) about hand-written executable models of header-driven CSV event parsing, of the NonLinLoc hyp parser (event splitting, PHASE section, positional fields, first-motion table, per-phase accumulation) and of the binary moment-tensor record codec; vm_compute correspondence against parse_csv and parse_hyp on generated files and against the bytes written by _convert_mt_space_to_struct / read by read_binary_output',
         text='Theorems in coq/Props/C17.v: a CSV row is read back field for field for every column order (extra columns allowed); an event '
              'with any number of data types, each with its own header order, is parsed back to its UID and, type by type and row by row, '
              'to the data of the file whatever state the previous event left; a binary record decodes to what was encoded for any number '
              'of samples, with or without converted parameters, also as one of several concatenated records, and occupies exactly 41 + '
-             'n*64 (or n*168) bytes. The unit tests parse one embedded example each.',
+             'n*64 (or n*168) bytes; NonLinLoc hyp files (Model/Hyp.v): whatever stands before and after the PHASE section of an event, its picks come back per phase type with stations, polarities, errors and angles, row for row in file order, only those with a non-zero first motion; a phase type is listed at most once for every sequence of lines; splitting at END_NLLOC recovers any number of events (the last may be unterminated) and each is parsed on its own. The unit tests parse one embedded example each.',
         note='closed under the global context (no axioms). Models are hand-written, tied by correspondence only; tokenising text and cutting '
-             'bytes into items is trusted harness glue. The NonLinLoc hyp parser, the pickled inversion file and the value-level binary '
+             'bytes into items is trusted harness glue. The pickled inversion file, the numeric value of hyp tokens (float()) and the value-level binary '
              'round trip are judged on the implementation against the generator\'s own data (direct oracle), not modelled. Well-formed files '
              'only.',
         design='6 C17'),
